@@ -243,7 +243,7 @@ PROPS = {
     "C03": ip_prop("C03", IP_SCOPES),
     "C04": ip_prop("C04", IP_SCOPES, ["Netconan.Props.C04Data"]),
     "C05": ip_prop("C05", [ip_checks.mask_scope] + IP_SCOPES),
-    "C18": {"modules": ["Netconan.Props.C18", "Netconan.Props.C18Data"], "scopes": [jun_checks.scope],
+    "C18": {"modules": ["Netconan.Props.C18", "Netconan.Props.C18Data", "Netconan.Props.SrcJun"], "scopes": [jun_checks.scope],
             "checker_cmd": "cd lean && lake build Netconan.Props.C18 && lake env lean <#print axioms audit>", "rule": JUN_RULE,
             "assumptions": ["FAMILY/ENCODING/EXTRA/_fixedc tables are regenerated from the live module on every run; the functions are modelled by hand and tied by correspondence"]},
     "C06": {"modules": ["Netconan.Props.C06", "Netconan.Props.SrcIp"], "scopes": [iptext_checks.scope, iptext_checks.io_scope, iptext_checks.long_line_scope, ip_checks.text_history_scope, ip_scenarios.scenario_scope],
